@@ -76,6 +76,16 @@ pub fn one_run(cfg: &gen_::Cfg, cfgid: &str, proc_name: &str, wd: &gen_::Workdir
             f.mtime += salt * 977;
         }
     }
+    // the same set of files handed over in another order, and the same source date spelled as a date-time in
+    // another time zone, are the same configuration
+    let nf = cfg.files.len();
+    if nf > 1 {
+        cfg.files.rotate_left(salt as usize % nf);
+        if salt % 2 == 1 {
+            cfg.files.reverse();
+        }
+    }
+    cfg.source_date_offset = [None, Some(0), Some(7200), Some(-28800), Some(19800), Some(-12600)][salt as usize % 6];
     let cfg = &cfg;
     let r = guarded(|| -> Result<Value, rpm::Error> {
         let p = gen_::build(cfg, wd)?;
